@@ -28,7 +28,7 @@ ASSUMPTIONS = [
     'psutil.virtual_memory is patched to "plenty" so that the memory cache always caches (threshold crossings: C10)',
 ]
 N = {'quick': 500, 'thorough': 2500}
-STORAGES = ['new_pickle', 'new_copy', 'wu', 'cache', 'cache_eager', 'diskcache', 'cache_short']
+STORAGES = ['new_pickle', 'new_copy', 'wu', 'cache', 'cache_eager', 'diskcache', 'cache_short', 'cache_over_copy']
 READS = ['idx', 'neg', 'np', 'key', 'slice', 'iter', 'items', 'copy', 'copyf', 'view', 'iter_mut', 'items_mut',
          'prefetch_twice']
 MUTS = ['set', 'append', 'del', 'clear', 'nested', 'array', 'array_scale']
@@ -167,6 +167,9 @@ class World:
                 psutil.virtual_memory = lambda: __import__('types').SimpleNamespace(total=64 * 2 ** 30,
                                                                                      available=2 ** 20)
                 self.ds = lazy_dataset.new(self.original).map(lambda x: x).cache()
+            elif storage == 'cache_over_copy':
+                # a memory cache above a source that was built in copy mode: still a (pickling) cache
+                self.ds = lazy_dataset.new(self.original, immutable_warranty='copy').cache()
             elif storage == 'cache':
                 self.ds = raw.cache()
             elif storage == 'cache_eager':
